@@ -669,6 +669,35 @@ def write_oracle(chk, judges, twin, store, i, strings, t=None):
     return out
 
 
+
+_SET_MEMBERS = ("submodels", "isCaseOf", "refersTo", "valueReferencePairs", "specificAssetIds")
+
+
+def canon_sets_json(d, key=None):
+    """SDK output lists the members of Python sets in an order that differs from process to process (Reference.__hash__
+    includes the class object): sort them, so that the mutation stream below is a function of the seed alone"""
+    if isinstance(d, dict):
+        return {k: canon_sets_json(v, k) for k, v in d.items()}
+    if isinstance(d, list):
+        items = [canon_sets_json(x) for x in d]
+        if key in _SET_MEMBERS and all(isinstance(x, dict) for x in items) and not any("id" in x and "modelType" in x for x in items):
+            items.sort(key=lambda x: json.dumps(x, sort_keys=True))
+        return items
+    return d
+
+
+def canon_sets_xml(root, etree):
+    for el in root.iter():
+        if isinstance(el.tag, str) and etree.QName(el).localname in _SET_MEMBERS \
+                and not any(ch.find("{*}id") is not None for ch in el):
+            kids = sorted(el, key=lambda ch: etree.tostring(ch))
+            for ch in kids:
+                el.remove(ch)
+            for ch in kids:
+                el.append(ch)
+    return root
+
+
 def run(chk):
     rng = chk.rng
     quick = chk.tier == "quick"
@@ -768,8 +797,8 @@ def run(chk):
                      {"how": f"seed={chk.seed} store #{i}", "ids": sorted(o.id for o in store)})
             continue
         if strings == "plain":
-            jdocs.append(out["json"])
-            xdocs.append(out["xml"])
+            jdocs.append(canon_sets_json(out["json"]))
+            xdocs.append(canon_sets_xml(out["xml"], judges.etree))
 
     # ---------------------------------------------------------------- reading oracle (independent writer)
     for i in range(n_read):
